@@ -41,7 +41,11 @@ macro_rules! varint_readers {
 }
 
 fn c15_arena<A: Subject>(backend: Backend, allocated: u32, poison: u8, path: Option<&std::path::PathBuf>) -> A {
-  let cfg = Cfg::new(Fl::Optimistic, backend, true, 256);
+  c15_arena_u::<A>(backend, true, allocated, poison, path)
+}
+
+fn c15_arena_u<A: Subject>(backend: Backend, unify: bool, allocated: u32, poison: u8, path: Option<&std::path::PathBuf>) -> A {
+  let cfg = Cfg::new(Fl::Optimistic, backend, unify, 256);
   let a: A = build::<A>(&cfg, path).expect("arena");
   // fill the whole data area with byte-distinct content through one allocation, then rewind
   let mut b = a.alloc_bytes(a.remaining() as u32).unwrap();
@@ -134,6 +138,68 @@ fn c15_flavour<A: Subject>(run: &Run, backend: Backend, thorough: bool) {
   }
 }
 
+/// slice lengths and reader bounds in states reached through clear() and through rewinds beyond the ends
+fn c15_states<A: Subject>(run: &Run, backend: Backend, unify: bool) {
+  let flav = A::FLAVOUR;
+  for how in ["clear", "clear+alloc", "rewind-beyond-capacity", "rewind-below-data-offset", "fresh", "full"] {
+    let p = if backend == Backend::File { Some(fresh_path("c15s")) } else { None };
+    let a: A = c15_arena_u::<A>(backend, unify, 100, 0xFF, p.as_ref());
+    let case = json!({"engine": "c15", "flavour": flav, "backend": backend, "unify": unify, "state": how});
+    crate::crashguard::set_case(crate::crashguard::head_of(&case));
+    let r = std::panic::catch_unwind(std::panic::AssertUnwindSafe(|| {
+      match how {
+        "clear" => unsafe { a.clear().unwrap() },
+        "clear+alloc" => {
+          unsafe { a.clear().unwrap() };
+          let mut b = a.alloc_bytes(9).unwrap();
+          unsafe { b.detach() };
+        }
+        "rewind-beyond-capacity" => unsafe { a.rewind(ArenaPosition::Start(256 + 50)) },
+        "rewind-below-data-offset" => unsafe { a.rewind(ArenaPosition::Start(0)) },
+        "full" => unsafe { a.rewind(ArenaPosition::End(0)) },
+        _ => {}
+      }
+      let (al, cap, dof) = (a.allocated(), a.capacity(), a.data_offset());
+      let mut bad = vec![];
+      if al > cap || al < dof {
+        bad.push(format!("allocated() = {} outside [data_offset {}, capacity {}]", al, dof, cap));
+      }
+      let cfg = Cfg::new(Fl::Optimistic, backend, unify, 256);
+      if dof != cfg.data_offset() {
+        bad.push(format!("data_offset() = {}, layout says {}", dof, cfg.data_offset()));
+      }
+      if a.allocated_memory().len() != al || a.memory().len() != cap || a.data().len() != al.wrapping_sub(dof) {
+        bad.push(format!("allocated_memory {} data {} memory {} for allocated {} data_offset {} capacity {}", a.allocated_memory().len(), a.data().len(), a.memory().len(), al, dof, cap));
+      }
+      for off in [al.saturating_sub(1), al, cap.saturating_sub(1), cap, cap + 1] {
+        let want_ok = off < al;
+        if a.get_u8(off).is_ok() != want_ok {
+          bad.push(format!("get_u8({}) ok={} with allocated {}", off, !want_ok, al));
+        }
+        if a.get_u16_varint(off).map(|_| ()).map_err(|e| matches!(e, Error::OutOfBounds { .. })) == Err(true) && want_ok {
+          bad.push(format!("get_u16_varint({}) OutOfBounds with allocated {}", off, al));
+        }
+      }
+      bad
+    }));
+    run.eval(1);
+    match r {
+      Err(_) => viol(run, "C15", &format!("panic-in-state:{}", how), format!("[{flav} {backend:?} unify={unify}] slices / readers panicked in state '{how}'"), case),
+      Ok(bad) => {
+        for m in bad {
+          viol(run, "C15", &format!("slice-lengths:{}", how), format!("[{flav} {backend:?} unify={unify} state '{how}'] {m}"), case.clone());
+        }
+      }
+    }
+    run.states.insert(hash_of(&(flav, backend, unify, how)));
+    drop(a);
+    if let Some(p) = p {
+      let _ = std::fs::remove_file(p);
+    }
+  }
+  crate::crashguard::clear_case();
+}
+
 pub fn check_c15(tier: Tier) -> i32 {
   let run = Run::new("C15", tier, "model_checking");
   let thorough = tier == Tier::Thorough;
@@ -143,6 +209,11 @@ pub fn check_c15(tier: Tier) -> i32 {
     c15_flavour::<sync::Arena>(&run, b, thorough);
     c15_flavour::<unsync::Arena>(&run, b, thorough);
   }
+  for (b, u) in [(Backend::Vec, false), (Backend::Vec, true), (Backend::Anon, false), (Backend::File, true), (Backend::File, false)] {
+    c15_states::<sync::Arena>(&run, b, u);
+    c15_states::<unsync::Arena>(&run, b, u);
+  }
+  crate::crashguard::set_case(crate::crashguard::head_of(&json!({"engine": "c15", "tag": "C15"})));
   let e = run.evaluations.load(std::sync::atomic::Ordering::Relaxed);
   run.trans(e);
   run.sample(|| json!({"arena": "unified Vec arena, capacity 256, data area filled with byte-distinct content, cursor rewound to 47", "calls": "get_u32_le(45) -> OutOfBounds; get_u16_be(45) -> value of bytes 45..47; get_u64_varint(44) with 0xFF vs 0x00 above the cursor -> identical results"}));
@@ -329,9 +400,26 @@ fn c16_construct<A: Subject>(run: &Run, reserved: u32, cap: u32, unify: bool, ba
         }
         // the first allocation of each alignment starts at the first aligned offset at or after data_offset
         if !bad.is_empty() {
-          viol(run, "C16", "accessors", format!("[{} {:?} unify={} reserved {} capacity {}] {}", A::FLAVOUR, backend, unify, reserved, cap, bad.join("; ")), case);
+          viol(run, "C16", "accessors", format!("[{} {:?} unify={} reserved {} capacity {}] {}", A::FLAVOUR, backend, unify, reserved, cap, bad.join("; ")), case.clone());
         }
         run.nontrivial.insert(hash_of(&(reserved, cap, unify, backend as u8, A::SYNC)));
+        if backend == Backend::File {
+          // an arena that could be created can be opened again in every mode, with the same layout
+          drop(a);
+          let p = path.as_ref().unwrap();
+          for mode in crate::props_file::Mode::ALL {
+            let o = cfg.options().with_read(true).with_write(true);
+            match crate::props_file::open::<A>(p, o, mode) {
+              Err(e) => viol(run, "C16", &format!("reopen-refused:{:?}", mode), format!("[{} reserved {} capacity {} (prefix {})] created but {:?} reopen failed: {}", A::FLAVOUR, reserved, cap, prefix, mode, e), case.clone()),
+              Ok(b) => {
+                if b.data_offset() != want_dof || b.capacity() != cap as usize || b.reserved_bytes() != reserved as usize || !b.unify() || b.read_only() == mode.writable() {
+                  viol(run, "C16", &format!("reopen-accessors:{:?}", mode), format!("[{} reserved {} capacity {}] {:?} reopen: data_offset {} capacity {} reserved {} unify {} read_only {}", A::FLAVOUR, reserved, cap, mode, b.data_offset(), b.capacity(), b.reserved_bytes(), b.unify(), b.read_only()), case.clone());
+                }
+              }
+            }
+            run.eval(1);
+          }
+        }
       }
     }
   }
